@@ -494,7 +494,7 @@ def correspondence(ctx, model_ok, tmp):
             pos = rng.randrange(len(s))
             s2 = s[:pos] + s[pos + 1:]
         check_string(s2, "mutated")
-    lexy = ["1", "1.", ".5", "1.5e", "1e5", "1e+", "1..2", "1 ..2", "1.. 2:", "1..2:0", "1..2:03", "-1..-2", "1...2", "a.b", "a.b.c", "a.b.c.d", "a.", ".a",
+    lexy = ["1", "1.", ".5", "1.5e", "1e5", "1e+", "1..2", "1 ..2", "1.. 2:", "1..2:0", "1..2:03", "-1..-2", "a IN (9..02)", "a IN (-0..6:10)", "a IN (-007..-00, 0010..0)", "1...2", "a.b", "a.b.c", "a.b.c.d", "a.", ".a",
             "a..b", "''", "'a'b'", "'a\nb'", "T''", "t'x'", "TT'x'", "T 'x'", ":a", ": a", ":1", "<=>", "!==", "! =", "a<>b", "nOt", "NOTa", "a--1",
             "a - -1", "a -1..2", "a - 1..2", "1 - 1", "1-1", "- 1", "--1", "+-1", "in", "a in(1)", "a not in (1)", "a not  in (1)", "a in ()", "a in (1,)",
             "f()", "f(,)", "f(1,)", "POINT(1,2)", "point(1, 2)", "POINT(1)", "POINT()", "(1,2)", "(1,2,3)", "()", "", " ", "\n", "a\n=\n1", "a = 1 ;",
